@@ -42,8 +42,14 @@ def run(c):
         if rng.random() < (0.25 if not thorough else 0.1):
             for v in hdr_variants(g["m"], g["inp"]):
                 cases.append(dict(k="pured", entry="plain", inp=v))
+    accd = [g for g in use if g["ok"] and TBL[g["m"]]["family"] != "ENV"]
+    for g in rng.sample(accd, min(len(accd), 300 if not thorough else 3000)):      # the same messages inside a security-protected envelope
+        for sht in (1, 2, 3, 4):
+            cases.append(dict(k="pured", entry="plain", inp=wrapped(g["inp"], sht)))
     for name, b in samples(3000 if not thorough else 70000):
         cases.append(dict(k="pured", entry="plain", inp=b))
+        if len(b) < 300:
+            cases.append(dict(k="pured", entry="plain", inp=wrapped(b, 2)))
     wants = [(g["m"], g["w"]) for g in gen if g["g"] and TBL[g["m"]]["family"] != "ENV"]
     if thorough: wants = rng.sample(wants, min(len(wants), 20000))
     bym = {}
@@ -53,6 +59,11 @@ def run(c):
         c.count_distinct(("e", m, json.dumps(w, sort_keys=True)))
     for m, ws in bym.items():
         full = merge_wants(m, ws)
+        for fv in fill_variants(m, full):                                              # constant contents (all 0x00, 0xFF, ...)
+            cases.append(dict(k="puree", m=m, mand=fv["mand"], opt=fv["opt"], pre=rng.choice([0, 17])))
+        for w in rng.sample(ws, min(len(ws), 4)):
+            fv = fill_variants(m, w)[0]                                                # all-zero contents of single elements
+            cases.append(dict(k="puree", m=m, mand=fv["mand"], opt=fv["opt"], pre=1))
         for pre in (0, 1, 17, 4096):
             cases.append(dict(k="puree", m=m, mand=full["mand"], opt=full["opt"], pre=pre))
     events, hang = run_codec(c, drv, cases)
